@@ -360,7 +360,7 @@ def decode(ints, nops):
     return obs, graph
 
 
-def compare(iobs, igraph, mobs, mgraph, tol=1.0):
+def compare(iobs, igraph, mobs, mgraph, tol=1.0, rtol=2e-8):
     for i, (a, m) in enumerate(zip(iobs, mobs)):
         if a['ok'] != m['ok']:
             return [(i, f"decision: impl {'ok' if a['ok'] else a['exc'] + ' ' + a.get('msg', '')} / model {'ok' if m['ok'] else m['exc']}")]
@@ -375,7 +375,7 @@ def compare(iobs, igraph, mobs, mgraph, tol=1.0):
                 if x['t'] != y['t']:
                     return [(i, f"result {j}: kind impl {x['t']} model {y['t']}")]
                 continue
-            d = dsl.cmp_obj(x, y, F(1e-8) * (i + 1) * F(tol), F(2e-8), f"op {i} result {j}")
+            d = dsl.cmp_obj(x, y, F(1e-8) * (i + 1) * F(tol), F(rtol), f"op {i} result {j}")
             if d:
                 return [(i, d[0])]
     if igraph != mgraph:
@@ -561,7 +561,15 @@ class HGen:
         s, d = self.pick('ps'), self.pick('ps')
         if s is None or d is None:
             return
-        if self.rng.random() < 0.4:       # prefer a disjoint slice of the same plate object
+        if self.rng.random() < 0.3:       # a single loaded well as the source (one-to-many)
+            loaded = [(v, a, b) for v, k in enumerate(self.im.kinds) if k == 'p'
+                      for a in range(self.im.vars[v].n_rows) for b in range(self.im.vars[v].n_columns) if self.im.vars[v].wells[a, b].volume > 20]
+            if loaded:
+                v, a, b = self.rng.choice(loaded)
+                o, new = self.emit({'op': 'slice', 'p': v, 'r': {'rect': [[a], [b]]}}, 'slice', [v])
+                if new:
+                    s = new[0]
+        elif self.rng.random() < 0.4:       # prefer a disjoint slice of the same plate object
             ids = set(map(id, self.cells(s)))
             cands = [v for v, k in enumerate(self.im.kinds) if k == 's' and self.plate_of(v) is self.plate_of(s)
                      and not (set(map(id, self.cells(v))) & ids)]
@@ -798,6 +806,9 @@ def recipe_cases(chk, n):
                                                [(subs[s], dsl.qty_str(q)) for s, q in o['init']] or None)
             else:
                 handles[o['name']] = Plate(recipes.cname(o['name']), dsl.qty_str(o['max']), rows=o['rows'], columns=o['cols'])
+        for pf in prog.get('prefill', []):
+            handles[pf['src']], handles[pf['dst']] = Plate.transfer(handles[pf['src']], handles[pf['dst']], dsl.qty_str(pf['q']))
+        for o in prog['objects']:
             w.add(f"declared object {o['name']}", handles[o['name']])
         r = Recipe()
         fails = []
@@ -935,6 +946,12 @@ def directed():
                          {'op': 'transfer', 's': 12, 'd': 11, 'q': q(60, 'u', 'L')},       # B-row: the second pair fails (A2 has 30)
                          {'op': 'newp', 'name': 4, 'rows': 2, 'cols': 3, 'max': q(300, 'u', 'L')},
                          {'op': 'transfer', 's': 12, 'd': 11, 'q': q(1, 'u', 'L')}])
+    # one well of one plate dispensed into a row of another plate: repeated with the same slice objects, then running dry part-way
+    progs.append(base + [{'op': 'newp', 'name': 5, 'rows': 2, 'cols': 3, 'max': q(300, 'u', 'L')},     # var 11
+                         {'op': 'slice', 'p': 8, 'r': {'rect': [[0], [0]]}},                              # var 12: A1 of the loaded plate
+                         {'op': 'slice', 'p': 11, 'r': {'rect': [[1], [0, 1, 2]]}},                       # var 13: row B of the new plate
+                         {'op': 'transfer', 's': 12, 'd': 13, 'q': q(3, 'u', 'L')}, {'op': 'transfer', 's': 12, 'd': 13, 'q': q(3, 'u', 'L')},
+                         {'op': 'transfer', 's': 12, 'd': 13, 'q': q(60, 'u', 'L')}, {'op': 'transfer', 's': 12, 'd': 13, 'q': q(3, 'u', 'L')}])
     # no-op fill_to / dilute return new objects and leave the instructions of the argument alone
     progs.append([{'op': 'newc', 'name': 1, 'max': q(10, 'm', 'L'), 'init': [(liquid, q(5, 'm', 'L')), (solid, q(1, '', 'g'))]},
                   {'op': 'fill', 't': 0, 'solvent': liquid, 'q': q(10, 'm', 'L')},           # var 1
@@ -1005,7 +1022,8 @@ def run(chk, gate, status):
             continue
         try:
             mobs, mgraph = decode(m, len(prog['ops']))
-            d = compare(obs, im.graph(), mobs, mgraph, tol=10.0)
+            # create_solution_from rounds the stock's amounts and volume before solving: its results are exact to ~1e-7 only (as in C12)
+            d = compare(obs, im.graph(), mobs, mgraph, tol=10.0, rtol=1e-6 if any(o['op'] in ('solfrom', 'solutionc') for o in prog['ops']) else 2e-8)
         except Exception as e:  # noqa
             d = [(0, f"cannot decode the model's output: {type(e).__name__} {e}")]
         if d:
